@@ -137,7 +137,7 @@ func baseConfigs(tier string, mergeOp bool) []Config {
 func init() {
 	g1Specs["C01"] = func(tier string) *G1Spec {
 		sp := &G1Spec{Prop: "C01", Alpha: c01Alpha, Configs: baseConfigs(tier, false),
-			Steps: []string{"M", "MA", "Pb", "Pe", "R"}, Devs: []string{"m1", "p1"},
+			Steps: []string{"M", "MA", "Pb", "Pe", "R"}, Devs: []string{"m1", "p1", "m2", "p2"},
 			Roots: [][]string{{"B0", "M", "Pb", "Pe"}, {"B2", "M", "Pb", "Pe", "B0", "M", "Pb", "Pe", "R"}},
 			MaxB:  3, MaxD: 9, MaxK: 1, MaxR: 1, Deadline: tierDeadline(tier),
 			Note: "oracle: dump(Collection.Snapshot()) == reference model after every step"}
